@@ -1187,4 +1187,265 @@ Section Flatten.
     { intros w Hin. rewrite Forall_forall in Hk. exact (Hk w Hin). }
     rewrite S1, S2. f_equal.
   Qed.
+
+  (* ---- lm/partial.hh: the two loops of ExtendLoop are the loop of NonTerminal -------------------------------------- *)
+  Notation xw := (ext_write N_order T).
+  Notation xf := (ext_full N_order T).
+
+  Lemma xf_zero : forall add l a back, xf add l a 0 back = (l, a, 0, back).
+  Proof. intros add [|p l] a back; reflexivity. Qed.
+
+  (* left state already complete: every remaining pointer is extended with the context still in use *)
+  Lemma full_sim : forall l C orig el P Q a nu back, Forall (fun p => p <> []) l ->
+    nu <> 0 -> nu <= length (s_words orig) ->
+    match ntl C orig l el P true Q nu back with
+    | inl e => exists rest a' back2, xf (s_words orig) l a nu back = (rest, a', 0, back2) /\
+                 rs_ptrs e = P /\ (rs_prob e - Q = a' - a)%Z
+    | inr (P1, d1, Q1, nu1, back1) => exists a', xf (s_words orig) l a nu back = ([], a', nu1, back1) /\
+                 P1 = P /\ d1 = true /\ (Q1 - Q = a' - a)%Z /\ nu1 <> 0 /\ nu1 <= length (s_words orig)
+    end.
+  Proof.
+    induction l as [|p l IH]; intros C orig el P Q a nu back Hl Hnu Hm.
+    - cbn [nt_loop ext_full]. exists a. repeat split; try lia; assumption.
+    - inversion Hl as [|? ? Hp Hl']. subst. cbn [nt_loop ext_full].
+      destruct (Nat.eqb_spec nu 0) as [E0|_]; [congruence|].
+      destruct (extend_left N_order T (firstn nu (s_words orig)) back p) as [[ret bo] nu'] eqn:EX.
+      destruct (extend_left_bounds _ _ _ _ _ _ Hp EX) as [B1 [B2 B3]]. rewrite firstn_length in B1.
+      unfold process_ret.
+      destruct (Nat.eqb_spec nu' (length (s_words orig))) as [Em|Em]; cbn [negb].
+      + specialize (IH C orig (S el) P (Q + r_prob ret)%Z (a + r_prob ret)%Z nu' bo Hl' ltac:(lia) ltac:(lia)).
+        destruct (ntl C orig l (S el) P true (Q + r_prob ret)%Z nu' bo) as [e|[[[[P1 d1] Q1] nu1] back1]].
+        * destruct IH as [rest [a' [back2 [H1 [H2 H3]]]]]. exists rest, a', back2. rewrite H1. repeat split; try assumption; lia.
+        * destruct IH as [a' [H1 [H2 [H3 [H4 [H5 H6]]]]]]. exists a'. rewrite H1. repeat split; try assumption; lia.
+      + destruct (Nat.eqb_spec nu' 0) as [E0|E0].
+        * subst nu'. rewrite xf_zero. exists l, (a + r_prob ret)%Z, bo. cbn [rs_ptrs rs_prob]. unfold un_rest. repeat split; lia.
+        * specialize (IH C orig (S el) P (Q + r_prob ret)%Z (a + r_prob ret)%Z nu' bo Hl' E0 ltac:(lia)).
+          destruct (ntl C orig l (S el) P true (Q + r_prob ret)%Z nu' bo) as [e|[[[[P1 d1] Q1] nu1] back1]].
+          -- destruct IH as [rest [a' [back2 [H1 [H2 H3]]]]]. exists rest, a', back2. rewrite H1. repeat split; try assumption; lia.
+          -- destruct IH as [a' [H1 [H2 [H3 [H4 [H5 H6]]]]]]. exists a'. rewrite H1. repeat split; try assumption; lia.
+  Qed.
+
+  (* left state still open: pointers are written while the words keep extending and next_use stays put *)
+  Lemma write_sim : forall l C orig el P0 W Q a back, Forall (fun p => p <> []) l -> 0 < length (s_words orig) ->
+    let m := length (s_words orig) in
+    let '(rest, W', a1, mf, nu', back') := xw (s_words orig) m l W a m back in
+    let '(rest2, a2, nu2, back2) := xf (s_words orig) rest a1 nu' back' in
+    match ntl C orig l el (P0 ++ W) false Q m back with
+    | inl e => nu2 = 0 /\ mf = true /\ rs_ptrs e = P0 ++ W' /\ (rs_prob e - Q = a2 - a)%Z
+    | inr (P1, d1, Q1, nu1, back1) => rest2 = [] /\ nu2 = nu1 /\ back2 = back1 /\ mf = d1 /\ P1 = P0 ++ W' /\ (Q1 - Q = a2 - a)%Z /\
+                                      nu1 <> 0 /\ nu1 <= m
+    end.
+  Proof.
+    induction l as [|p l IH]; intros C orig el P0 W Q a back Hl Hm m.
+    - cbn [ext_write ext_full nt_loop]. repeat split; try lia.
+    - inversion Hl as [|? ? Hp Hl']. subst. cbn [ext_write nt_loop]. fold m.
+      destruct (extend_left N_order T (firstn m (s_words orig)) back p) as [[ret bo] nu'] eqn:EX.
+      destruct (extend_left_bounds _ _ _ _ _ _ Hp EX) as [B1 [B2 B3]]. rewrite firstn_length in B1. fold m in B1.
+      unfold process_ret.
+      destruct (r_indep ret) eqn:Ei.
+      + (* the left state is complete from here on *)
+        destruct (Nat.eqb_spec nu' m) as [Em|Em]; cbn [negb].
+        * pose proof (full_sim l C orig (S el) (P0 ++ W) (Q + r_prob ret)%Z (a + r_prob ret)%Z nu' bo Hl' ltac:(lia) ltac:(fold m; lia)) as HF.
+          destruct (xf (s_words orig) l (a + r_prob ret)%Z nu' bo) as [[[rest2 a2] nu2] back2].
+          destruct (ntl C orig l (S el) (P0 ++ W) true (Q + r_prob ret)%Z nu' bo) as [e|[[[[P1 d1] Q1] nu1] back1]].
+          -- destruct HF as [r' [a' [b' [H1 [H2 H3]]]]]. injection H1 as -> -> -> ->. repeat split; try assumption; lia.
+          -- destruct HF as [a' [H1 [H2 [H3 [H4 [H5 H6]]]]]]. injection H1 as -> -> -> ->. fold m in H6. repeat split; try assumption; try lia. symmetry; exact H3.
+        * destruct (Nat.eqb_spec nu' 0) as [E0|E0].
+          -- subst nu'. rewrite xf_zero. cbn [rs_ptrs rs_prob]. unfold un_rest. repeat split; lia.
+          -- pose proof (full_sim l C orig (S el) (P0 ++ W) (Q + r_prob ret)%Z (a + r_prob ret)%Z nu' bo Hl' E0 ltac:(fold m; lia)) as HF.
+             destruct (xf (s_words orig) l (a + r_prob ret)%Z nu' bo) as [[[rest2 a2] nu2] back2].
+             destruct (ntl C orig l (S el) (P0 ++ W) true (Q + r_prob ret)%Z nu' bo) as [e|[[[[P1 d1] Q1] nu1] back1]].
+             ++ destruct HF as [r' [a' [b' [H1 [H2 H3]]]]]. injection H1 as -> -> -> ->. repeat split; try assumption; lia.
+             ++ destruct HF as [a' [H1 [H2 [H3 [H4 [H5 H6]]]]]]. injection H1 as -> -> -> ->. fold m in H6. repeat split; try assumption; try lia. symmetry; exact H3.
+      + destruct (Nat.eqb_spec nu' m) as [Em|Em]; cbn [negb].
+        * (* keep writing *)
+          subst nu'. specialize (IH C orig (S el) P0 (W ++ [r_ext ret]) (Q + r_rest ret)%Z (a + r_rest ret)%Z bo Hl' Hm). cbv zeta in IH. fold m in IH.
+          destruct (xw (s_words orig) m l (W ++ [r_ext ret]) (a + r_rest ret)%Z m bo) as [[[[[rest W'] a1] mf] nu1'] back'].
+          destruct (xf (s_words orig) rest a1 nu1' back') as [[[rest2 a2] nu2] back2].
+          rewrite <- app_assoc.
+          destruct (ntl C orig l (S el) (P0 ++ W ++ [r_ext ret]) false (Q + r_rest ret)%Z m bo) as [e|[[[[P1 d1] Q1] nu1] back1]].
+          -- destruct IH as [H1 [H2 [H3 H4]]]. repeat split; try assumption; lia.
+          -- destruct IH as [H1 [H2 [H3 [H4 [H5 [H6 [H7 H8]]]]]]]. repeat split; try assumption; lia.
+        * destruct (Nat.eqb_spec nu' 0) as [E0|E0].
+          -- subst nu'. rewrite xf_zero. cbn [rs_ptrs rs_prob]. unfold un_rest. rewrite <- app_assoc. repeat split; lia.
+          -- pose proof (full_sim l C orig (S el) ((P0 ++ W) ++ [r_ext ret]) (Q + r_rest ret)%Z (a + r_rest ret)%Z nu' bo Hl' E0 ltac:(fold m; lia)) as HF.
+             destruct (xf (s_words orig) l (a + r_rest ret)%Z nu' bo) as [[[rest2 a2] nu2] back2].
+             destruct (ntl C orig l (S el) ((P0 ++ W) ++ [r_ext ret]) true (Q + r_rest ret)%Z nu' bo) as [e|[[[[P1 d1] Q1] nu1] back1]].
+             ++ destruct HF as [r' [a' [b' [H1 [H2 H3]]]]]. injection H1 as -> -> -> ->. rewrite <- app_assoc in H2. repeat split; try assumption; lia.
+             ++ destruct HF as [a' [H1 [H2 [H3 [H4 [H5 H6]]]]]]. injection H1 as -> -> -> ->. fold m in H6. rewrite <- app_assoc in H2.
+                repeat split; try assumption; try lia. symmetry; exact H3.
+  Qed.
+
+  (* pointers recorded in a left state denote entries that extend left *)
+  Definition gp (p : key) : Prop := exists e, T p = Some e /\ e_left e = true.
+
+  Lemma extend_left_nil : forall p, gp p ->
+    exists ret, extend_left N_order T [] [] p = (ret, [], 0) /\ r_indep ret = false /\ r_ext ret = p /\ r_rest ret = 0%Z /\ r_prob ret = 0%Z.
+  Proof.
+    intros p [e [He Hl]]. rewrite extend_left_core. cbn zeta. cbn [resume_core]. unfold rx0_of. rewrite He.
+    cbn [r_prob r_len r_indep r_ext r_rest pick length].
+    eexists. split; [rewrite Nat.sub_diag; reflexivity|]. cbn [r_indep r_ext r_rest r_prob].
+    rewrite Hl. cbn [negb]. split; [destruct (Nat.eqb (length p) 1); reflexivity|]. split; [reflexivity|].
+    rewrite (rest_eq _ _ He). rewrite Nat.sub_diag. cbn. split; lia.
+  Qed.
+
+  Lemma xw_empty : forall l W a, Forall gp l ->
+    exists a', xw [] 0 l W a 0 [] = ([], W ++ l, a', false, 0, []) /\ a' = a.
+  Proof.
+    induction l as [|p l IH]; intros W a Hl.
+    - cbn [ext_write]. exists a. rewrite app_nil_r. split; reflexivity.
+    - inversion Hl as [|? ? Hp Hl']. subst. cbn [ext_write firstn].
+      destruct (extend_left_nil p Hp) as [ret [H1 [H2 [H3 [H4 H5]]]]]. rewrite H1, H2. cbn [Nat.eqb negb].
+      destruct (IH (W ++ [r_ext ret]) (a + r_rest ret)%Z Hl') as [a' [I1 I2]].
+      exists a'. rewrite I1. rewrite H3. rewrite <- app_assoc. split; [reflexivity|]. rewrite I2, H4. lia.
+  Qed.
+
+  Definition mkrs (P : list key) (r : state) (d : bool) (p : Z) : rs := {| rs_ptrs := P; rs_right := r; rs_done := d; rs_prob := p |}.
+
+  Lemma norm_mk : forall P r d d' p p', p = p' ->
+    orb d (Nat.eqb (length P) (N_order - 1)) = orb d' (Nat.eqb (length P) (N_order - 1)) ->
+    norm (mkrs P r d p) = norm (mkrs P r d' p').
+  Proof. intros P r d d' p p' -> H. unfold norm, mkrs. cbn [rs_ptrs rs_right rs_done rs_prob]. rewrite H. reflexivity. Qed.
+
+  (* Subsume(first, second) is NonTerminal(second) applied to the rule state the first fragment stands for *)
+  Lemma subsume_nt : forall P1 f1 r1 P2 f2 r2 p1 p2,
+    cwf (mkchart P1 f1 r1) -> cwf (mkchart P2 f2 r2) -> Forall gp P2 ->
+    forall adj l1' r2',
+    subsume N_order T false {| l_ptrs := P1; l_full := f1 |} r1 {| l_ptrs := P2; l_full := f2 |} r2 = (adj, l1', r2') ->
+    norm (nt (mkrs P1 r1 f1 p1) (mkchart P2 f2 r2) p2) = norm (mkrs (l_ptrs l1') r2' (l_full l1') (p1 + p2 + adj)%Z).
+  Proof.
+    intros P1 f1 r1 P2 f2 r2 p1 p2 [A1 A2 A3] [B1 B2 B3] HG adj l1' r2' HS.
+    cbn [mkchart c_left c_right l_ptrs l_full] in *. unfold swf in A1, B1.
+    assert (WR : wf (mkrs P1 r1 f1 p1)) by (constructor; cbn; assumption).
+    unfold subsume, extend_loop in HS. cbn [l_ptrs l_full] in HS.
+    set (m := length (s_words r1)) in *.
+    assert (Hb0 : firstn m (s_bo r1) = s_bo r1) by (apply firstn_all2; lia).
+    rewrite Hb0 in HS.
+    destruct P2 as [|q0 qs].
+    - (* the second fragment has no pointer *)
+      assert (HX : (if negb f1 then xw (s_words r1) m [] [] 0%Z m (s_bo r1) else ([], [], 0%Z, false, m, s_bo r1)) =
+                   ([], [], 0%Z, false, m, s_bo r1)) by (destruct f1; reflexivity).
+      rewrite HX in HS. cbn [ext_full un_rest] in HS. cbn [x_adjust x_make_full x_next_use] in HS.
+      assert (Hbw : firstn m (s_bo r1) = s_bo r1) by exact Hb0. rewrite Hbw in HS.
+      unfold rs_nonterminal, mkchart, mkrs. cbn [c_left c_right l_ptrs l_full rs_ptrs rs_right rs_done rs_prob].
+      destruct f2.
+      + injection HS as <- <- <-. destruct f1; cbn [l_ptrs l_full]; [apply norm_mk; [lia|reflexivity]|].
+        rewrite app_nil_r. apply norm_mk; [lia|reflexivity].
+      + pose proof (B3 eq_refl) as Hr2. cbn [length] in Hr2.
+        destruct r2 as [w2 b2]. cbn [s_words s_bo] in *. destruct w2; [|discriminate]. destruct b2; [|discriminate].
+        cbn [app] in HS. assert (Hfw : firstn m (s_words r1) = s_words r1) by (unfold m; apply firstn_all). rewrite Hfw in HS.
+        injection HS as <- <- <-.
+        assert (Hr1 : {| s_words := s_words r1; s_bo := s_bo r1 |} = r1) by (destruct r1; reflexivity). rewrite Hr1.
+        destruct f1; cbn [l_ptrs l_full]; [apply norm_mk; [lia|reflexivity]|].
+        rewrite app_nil_r. fold m. apply norm_mk; [lia|]. cbn [orb].
+        rewrite (A3 eq_refl). fold m. destruct (Nat.eqb m (N_order - 1)); reflexivity.
+    - destruct (Nat.eq_dec m 0) as [Em|Em].
+      + (* the first fragment leaves no context *)
+        assert (Hw1 : s_words r1 = []) by (destruct (s_words r1); [reflexivity|discriminate]).
+        assert (Hb1 : s_bo r1 = []) by (destruct (s_bo r1); [reflexivity|cbn [length] in A1; lia]).
+        rewrite (nt_ctx_empty (mkrs P1 r1 f1 p1) (q0 :: qs) f2 r2 p2 Hw1 ltac:(discriminate)).
+        cbn [mkrs rs_done rs_ptrs rs_prob]. rewrite Hw1, Hb1, Em in HS.
+        destruct f1; cbn [negb] in HS.
+        * rewrite xf_zero in HS. cbn [x_adjust x_make_full x_next_use un_rest firstn] in HS.
+          destruct f2; injection HS as <- <- <-; cbn [l_ptrs l_full].
+          -- apply norm_mk; [cbn; lia|reflexivity].
+          -- rewrite state_app_nil. apply norm_mk; [cbn; lia|reflexivity].
+        * pose proof (A3 eq_refl) as HP1. destruct P1; [|cbn [length] in HP1; lia].
+          destruct (xw_empty (q0 :: qs) [] 0%Z HG) as [a' [X1 X2]]. rewrite X1 in HS. subst a'.
+          cbn [ext_full x_adjust x_make_full x_next_use un_rest firstn app] in HS.
+          destruct f2; injection HS as <- <- <-; cbn [l_ptrs l_full app].
+          -- apply norm_mk; [cbn; lia|reflexivity].
+          -- rewrite state_app_nil. apply norm_mk; [cbn; lia|].
+             change (match N_order - 1 with 0 => false | S m' => Nat.eqb (length qs) m' end) with (Nat.eqb (length (q0 :: qs)) (N_order - 1)).
+             rewrite app_nil_r. rewrite <- (B3 eq_refl). destruct (Nat.eqb (length (q0 :: qs)) (N_order - 1)); reflexivity.
+      + (* the loop *)
+        assert (Hne : s_words (rs_right (mkrs P1 r1 f1 p1)) <> []) by (cbn; intros E0; apply Em; unfold m; rewrite E0; reflexivity).
+        rewrite (nt_loop_form (mkrs P1 r1 f1 p1) (q0 :: qs) f2 r2 p2 ltac:(discriminate) Hne).
+        cbn [mkrs rs_right rs_ptrs rs_done rs_prob]. fold m.
+        destruct f1; cbn [negb] in HS.
+        * (* the first fragment's left state is complete: nothing is written *)
+          pose proof (full_sim (q0 :: qs) (mkchart (q0 :: qs) f2 r2) r1 1 P1 (p1 + p2)%Z 0%Z m (s_bo r1) B2 Em (le_n _)) as HF.
+          destruct (xf (s_words r1) (q0 :: qs) 0%Z m (s_bo r1)) as [[[rest2 a2] nu2] back2].
+          cbn [x_adjust x_make_full x_next_use un_rest] in HS.
+          destruct (ntl (mkchart (q0 :: qs) f2 r2) r1 (q0 :: qs) 1 P1 true (p1 + p2)%Z m (s_bo r1)) as [e|[[[[Pn dn] Qn] nun] backn]] eqn:EL.
+          -- destruct HF as [rest [a' [b2' [H1 [H2 H3]]]]]. injection H1 as -> -> -> ->.
+             destruct (ntl_early _ _ _ _ _ _ _ _ _ _ B2 A2 EL) as [E1 [E2 E3]]. cbn [firstn] in HS.
+             assert (He : e = mkrs P1 r2 true (rs_prob e)) by (destruct e; cbn in *; subst; reflexivity).
+             rewrite He. destruct f2; injection HS as <- <- <-; cbn [l_ptrs l_full].
+             ++ apply norm_mk; [cbn; lia|reflexivity].
+             ++ rewrite state_app_nil. apply norm_mk; [cbn; lia|reflexivity].
+          -- destruct HF as [a' [H1 [H2 [H3 [H4 [H5 H6]]]]]]. injection H1 as -> -> -> ->. subst Pn dn.
+             destruct f2; injection HS as <- <- <-; cbn [l_ptrs l_full].
+             ++ apply norm_mk; [lia|reflexivity].
+             ++ rewrite (B3 eq_refl). rewrite Nat.ltb_irrefl. apply norm_mk; [lia|reflexivity].
+        * (* still open: pointers of the second fragment are written while they keep extending *)
+          pose proof (write_sim (q0 :: qs) (mkchart (q0 :: qs) f2 r2) r1 1 P1 [] (p1 + p2)%Z 0%Z (s_bo r1) B2 ltac:(fold m; lia)) as HW.
+          cbv zeta in HW. fold m in HW. rewrite app_nil_r in HW.
+          destruct (xw (s_words r1) m (q0 :: qs) [] 0%Z m (s_bo r1)) as [[[[[rest W'] a1] mf] nu'] back'].
+          destruct (xf (s_words r1) rest a1 nu' back') as [[[rest2 a2] nu2] back2].
+          cbn [x_adjust x_make_full x_next_use un_rest] in HS.
+          destruct (ntl (mkchart (q0 :: qs) f2 r2) r1 (q0 :: qs) 1 P1 false (p1 + p2)%Z m (s_bo r1)) as [e|[[[[Pn dn] Qn] nun] backn]] eqn:EL.
+          -- destruct HW as [H1 [H2 [H3 H4]]]. subst nu2 mf.
+             destruct (ntl_early _ _ _ _ _ _ _ _ _ _ B2 A2 EL) as [E1 [E2 E3]]. cbn [firstn] in HS.
+             assert (He : e = mkrs (P1 ++ W') r2 true (rs_prob e)) by (destruct e; cbn in *; subst; reflexivity).
+             rewrite He. destruct f2; injection HS as <- <- <-; cbn [l_ptrs l_full].
+             ++ apply norm_mk; [cbn; lia|reflexivity].
+             ++ rewrite state_app_nil. apply norm_mk; [cbn; lia|reflexivity].
+          -- destruct HW as [H1 [H2 [H3 [H4 [H5 [H6 [H7 H8]]]]]]]. subst rest2 nu2 back2 mf Pn.
+             destruct f2; injection HS as <- <- <-; cbn [l_ptrs l_full].
+             ++ apply norm_mk; [lia|]. rewrite !orb_true_r. reflexivity.
+             ++ rewrite (B3 eq_refl). rewrite Nat.ltb_irrefl. apply norm_mk; [lia|].
+                (* open result: as many state words as pointers *)
+                destruct dn; [reflexivity|]. cbn [orb].
+                destruct (ntl_inv _ _ _ _ _ _ _ _ _ _ _ _ _ _ B2 A2 (le_n _) ltac:(rewrite A1; apply le_n) (fun _ => eq_refl) EL) as [I1 [I2 [I3 I4]]].
+                destruct (I4 eq_refl) as [J1 [_ J3]].
+                assert (Hlen : length (s_words r2 ++ firstn nun (s_words r1)) = length (P1 ++ W')).
+                { rewrite app_length, firstn_length. pose proof (B3 eq_refl) as K1. pose proof (A3 eq_refl) as K2.
+                  cbn [length] in *. fold m. fold m in J1. unfold key in *. lia. }
+                rewrite Hlen. destruct (Nat.eqb (length (P1 ++ W')) (N_order - 1)); reflexivity.
+  Qed.
+
+  Lemma term_gp : forall X w, wf X -> known w -> Forall gp (rs_ptrs X) -> Forall gp (rs_ptrs (term X w)).
+  Proof.
+    intros X w WX Hw HG. unfold rs_terminal.
+    destruct (full_score N_order T (rs_right X) w) as [rf outf] eqn:Hf.
+    destruct (rs_done X); [exact HG|]. destruct (r_indep rf) eqn:Ei; [exact HG|]. cbn [rs_ptrs].
+    pose proof (wf_state X WX) as Hs. unfold swf in Hs. destruct (rs_right X) as [c1 B1]. cbn [s_words s_bo] in *.
+    destruct (sim_ext c1 B1 w rf outf Hw Hs Hf Ei) as [e [He [Hl [_ [_ [_ [Hx _]]]]]]].
+    apply Forall_app. split; [exact HG|]. constructor; [|constructor]. rewrite Hx. exists e. split; assumption.
+  Qed.
+
+  Lemma flat_gp : forall ws X, wf X -> Forall known ws -> Forall gp (rs_ptrs X) -> Forall gp (rs_ptrs (flat X ws)).
+  Proof.
+    induction ws as [|w ws IH]; intros X WX Hk HG; [exact HG|]. inversion Hk as [|? ? Hw Hk']. subst.
+    cbn [flat fold_left]. apply IH; [apply term_wf; exact WX|exact Hk'|apply term_gp; assumption].
+  Qed.
+
+  (* Subsume merges two adjacent finished fragments into the finished fragment of their concatenation, and its
+     adjustment is the whole minus the parts *)
+  Theorem subsume_flat : forall us ws, Forall known us -> Forall known ws ->
+    forall adj l' r',
+    subsume N_order T false (c_left (fst (fin (flat rs_init us)))) (c_right (fst (fin (flat rs_init us))))
+                            (c_left (fst (fin (flat rs_init ws)))) (c_right (fst (fin (flat rs_init ws)))) = (adj, l', r') ->
+    fin (mkrs (l_ptrs l') r' (l_full l') (snd (fin (flat rs_init us)) + snd (fin (flat rs_init ws)) + adj)%Z) =
+    fin (flat rs_init (us ++ ws)).
+  Proof.
+    intros us ws Hu Hw adj l' r' HS.
+    set (X1 := flat rs_init us) in *. set (X2 := flat rs_init ws) in *.
+    assert (W1 : wf X1) by (apply flat_wf; exact wf_init). assert (W2 : wf X2) by (apply flat_wf; exact wf_init).
+    pose proof (fin_cwf X1 W1) as C1. pose proof (fin_cwf X2 W2) as C2.
+    rewrite !fin_eq in HS, C1, C2. cbn [fst snd mkchart c_left c_right] in HS, C1, C2.
+    rewrite (fin_eq X1), (fin_eq X2). cbn [fst snd].
+    assert (HG : Forall gp (rs_ptrs X2)) by (apply flat_gp; [exact wf_init|exact Hw|constructor]).
+    pose proof (subsume_nt _ _ _ _ _ _ (rs_prob X1) (rs_prob X2) C1 C2 HG adj l' r' HS) as HN.
+    rewrite fin_norm. rewrite <- HN.
+    assert (E1 : mkrs (rs_ptrs X1) (rs_right X1) (orb (rs_done X1) (Nat.eqb (length (rs_ptrs X1)) (N_order - 1))) (rs_prob X1) = norm X1) by reflexivity.
+    rewrite E1.
+    assert (E2 : mkchart (rs_ptrs X2) (orb (rs_done X2) (Nat.eqb (length (rs_ptrs X2)) (N_order - 1))) (rs_right X2) = fst (fin X2)) by reflexivity.
+    assert (E3 : rs_prob X2 = snd (fin X2)) by reflexivity.
+    rewrite E2, E3. unfold X2 at 1 2.
+    rewrite (nt_flat ws (norm X1) (norm_wf X1 W1) Hw).
+    rewrite (flat_norm ws (norm X1) X1 (norm_wf X1 W1) W1 Hw (norm_idem X1)).
+    rewrite <- fin_norm. unfold X1, flat. rewrite fold_left_app. reflexivity.
+  Qed.
 End Flatten.
